@@ -2,11 +2,17 @@ from harness.core import Prop, Problem, call
 from harness import gen
 
 
-def _table(r):
+def _table(r, limit=60):
+    """a returned table as plain ints; a table with far more rows than any generated instance has alternatives is
+    kept only in part (its size is what gets reported), so that a table that grows from call to call cannot exhaust
+    the memory of the check"""
     if r[0] != "ok":
         return r
     try:
-        return ("ok", {int(a): {int(b): int(v) for b, v in row.items()} for a, row in r[1].items()})
+        rows = list(r[1].items())
+        if len(rows) > limit:
+            rows = rows[:limit]
+        return ("ok", {int(a): {int(b): int(v) for b, v in list(row.items())[:limit + 1]} for a, row in rows})
     except Exception:
         return ("ok", "malformed")
 
@@ -47,12 +53,6 @@ class C07(Prop):
               [("preflibtools.instances.convert", "order_to_pwg")]
 
     def generate(self, rng, n, deep=False):
-        if deep or self.tier == "thorough":
-            # scale: ballots with more than a thousand indifference classes
-            m = 1100
-            alts = list(range(1, m + 1))
-            yield {"kind": "deep", "type": "soc", "alts": alts,
-                   "profile": [[[[a] for a in alts], 2], [[[a] for a in reversed(alts)], 1]]}
         for i in range(n):
             r = rng.random()
             c = gen.ordinal_case(rng, m=rng.randint(2, 7 if deep else 6), n=rng.randint(1, 6))
@@ -83,6 +83,14 @@ class C07(Prop):
                     rng.shuffle(more)
                 if more:
                     yield {"kind": "grow", "first": first, "more": more}
+
+        if deep or self.tier == "thorough":
+            # scale (LAST, so that whatever it leaves behind cannot affect the other cases): ballots with more than a
+            # thousand indifference classes
+            m = 1100
+            alts = list(range(1, m + 1))
+            yield {"kind": "deep", "type": "soc", "alts": alts,
+                   "profile": [[[[a] for a in alts], 2], [[[a] for a in reversed(alts)], 1]]}
 
     def run_impl(self, case):
         if case["kind"] == "grow":
